@@ -13,7 +13,7 @@ LEVEL = 'exploration'
 TECHNIQUE = 'exhaustive decision-table monitor: real Enforcer.enforce (scope gate + check) vs reference function, every row'
 RULE = ('rows = 16 scope-type declarations (none + every non-empty ordered subset of system/domain/project) x '
         '12 credential combinations (system absent / `system` / `system_scope` x domain_id x project_id) x enforce_scope '
-        'x do_raise x check allows/denies/depends on a role x rule overridden in the policy file or not x rule by name / check object x '
+        'x do_raise x check allows/denies/depends on a role x rule overridden in the policy file or not (under its own name, or - for policies registered as renamed - under the deprecated old name) x registered as RuleDefault / DocumentedRuleDefault x rule by name / check object x '
         '4 credential representations (dict, RequestContext, to_policy_values mapping, that mapping with the `system` '
         'spelling added on top; the `system` spelling exists only for dicts and the last form); four more blocks flip '
         'enforce_scope on a LIVING enforcer (on->off->on, off->on->off, ...) and re-run the table after each flip x role content irrelevant to the check. Non-trivial = scope types declared; distinct = distinct row.')
@@ -110,9 +110,24 @@ def check_block(ctx, enforce_scope, override, flips=()):
                 # check taken from the wrong place shows up as a wrong decision
                 text = {True: '@', False: '!', 'role': 'role:admin'}[res]
                 opposite = {True: '!', False: '@', 'role': 'not role:admin'}[res]
-                enf.register_default(policy.RuleDefault(nm, opposite if override else text, scope_types=st))
-                if override:
-                    filerules[nm] = text
+                kind = i % 3
+                default_text = opposite if override else text
+                if kind == 1:
+                    # the documented flavour of a registered default
+                    enf.register_default(policy.DocumentedRuleDefault(nm, default_text, 'doc', [{'path': '/p', 'method': 'GET'}],
+                                                                      scope_types=st))
+                    if override:
+                        filerules[nm] = text
+                elif kind == 2 and override:
+                    # a renamed policy: the operator's file still overrides the OLD name; that override governs the check,
+                    # the scope types still come from the registered default
+                    dep = policy.DeprecatedRule('old:' + nm, default_text, deprecated_reason='r', deprecated_since='s')
+                    enf.register_default(policy.RuleDefault(nm, default_text, deprecated_rule=dep, scope_types=st))
+                    filerules['old:' + nm] = text
+                else:
+                    enf.register_default(policy.RuleDefault(nm, default_text, scope_types=st))
+                    if override:
+                        filerules[nm] = text
                 names[nm] = (st, res)
         tree.write(os.path.basename(tree.main), filerules, 'json')
         passes = [enforce_scope] + list(flips)
